@@ -38,6 +38,8 @@ def _load():
         _m["tm"] = tm
         _m["fsr"] = fsr
         _m["real_random"] = pathplanner.random
+        from basic_robotics.utilities import disp
+        _m["disp"] = disp
     return _m
 
 
@@ -253,13 +255,79 @@ class DrawSource:
 
 # --------------------------------------------------------------------------- executor
 
+class SimTime16:
+    """Stand-in for the `time` module as pathplanner and utilities.disp see it (pathplanner gets the name through
+    `from ..utilities.disp import *`).  Nothing in the unchanged planner reads a clock; a change that starts to (a planning
+    time budget, a progress ETA) then reads the simulator's: generator, distance and collision call-backs cost simulated
+    time, per run nothing or up to seconds each (a slow collision checker)."""
+
+    def __init__(self, run):
+        self._run = run
+
+    def time(self):
+        self._run.probes["library_read_the_clock"] += 1
+        return 1.7e9 + self._run.vnow
+
+    def monotonic(self):
+        self._run.probes["library_read_the_clock"] += 1
+        return self._run.vnow
+
+    perf_counter = monotonic
+
+    def process_time(self):
+        return self.monotonic()
+
+    def time_ns(self):
+        return int(self.time() * 1e9)
+
+    def monotonic_ns(self):
+        return int(self.monotonic() * 1e9)
+
+    perf_counter_ns = monotonic_ns
+
+    def sleep(self, dt):
+        self._run.vnow += max(0.0, float(dt))
+
+    def __getattr__(self, name):
+        raise HarnessError("the code under test used time.%s, which the simulated clock does not model" % name)
+
+
+_SIM_TIME_FUNCS = ("time", "monotonic", "perf_counter", "process_time", "time_ns", "monotonic_ns", "perf_counter_ns", "sleep")
+
+
+def _sim_time_fn(st, fname):
+    f_ = getattr(st, fname)
+
+    def f(*a, **k):
+        return f_(*a, **k)
+    f._dsim_time = fname
+    return f
+
+
+def _install_clock(run, mods):
+    for mod in mods:
+        for k_, v_ in list(vars(mod).items()):
+            tn_ = type(v_).__name__
+            if isinstance(v_, SimTime16) or (tn_ == "module" and v_.__name__ == "time"):
+                setattr(mod, k_, SimTime16(run))
+                continue
+            if tn_ not in ("function", "builtin_function_or_method"):
+                continue
+            fn_ = getattr(v_, "_dsim_time", None)
+            if fn_ is None and tn_ == "builtin_function_or_method" and getattr(v_, "__module__", None) == "time" \
+                    and v_.__name__ in _SIM_TIME_FUNCS:
+                fn_ = v_.__name__
+            if fn_ is not None:
+                setattr(mod, k_, _sim_time_fn(SimTime16(run), fn_))
+
+
 def _Null():
     """A real file object on the null device (has .buffer, .fileno(), .flush() like a normal stdout)."""
     return open(os.devnull, "w")
 
 
 class RRTRun:
-    sim_seconds = None
+    sim_seconds = property(lambda self: self.vnow)
 
     def __init__(self, trace, keep_log=False):
         self.trace = trace
@@ -278,6 +346,9 @@ class RRTRun:
         self.node_list = []
         self.box_list = []
         self.consumed = None
+        self.vnow = 0.0                 # simulated seconds spent in the call-backs (the only clock the planner can read)
+        c_ = (trace.get("config") or {}).get("cost") or {}
+        self.cost_gen, self.cost_dist, self.cost_coll = float(c_.get("gen", 0.0)), float(c_.get("dist", 0.0)), float(c_.get("coll", 0.0))
 
     # ---- build the planner --------------------------------------------------
     def _build(self):
@@ -291,6 +362,9 @@ class RRTRun:
             src = DrawSource(self.trace["draw_seed"], cfg, self)
             self.rnd = SimRandom(source=src, budget=cfg.get("budget", 200 * cfg["iterations"] + 600))
         pp.random = self.rnd
+        _install_clock(self, (pp, m["disp"]))
+        if self.cost_coll or self.cost_dist or self.cost_gen:
+            self.probes["callbacks_cost_simulated_time"] += 1
         origin = tm(list(cfg["origin"]))
         self.origin6 = pos6(origin)
         self.origin_tm = origin          # the caller's own object (kept to edit it later: the planner must not depend on it)
@@ -356,13 +430,16 @@ class RRTRun:
         self._cur_units = tuple(self.rnd.consumed[self._last_units_start:])
         self._last_units_start = len(self.rnd.consumed)
         self._cur_sample = p
+        self.vnow += self.cost_gen
         return node
 
     def _rec_dist(self, a, b, d):
         self.log.add("dist", pos6(a), pos6(b), fl(d))
+        self.vnow += self.cost_dist
 
     def _rec_coll(self, a, b, res):
         self.log.add("coll", pos6(a.getPosition()), pos6(b.getPosition()), bool(res))
+        self.vnow += self.cost_coll
 
     def run(self):
         m = _load()
@@ -996,13 +1073,19 @@ def gen_trace(seed):
         if nb:
             cfg["second"]["replace_box"] = nb
     cfg["budget"] = (40 if cfg.get("marathon") else 200) * iters + 600
+    # what the call-backs cost in simulated time (own stream: the rest of the configuration is what it was before this existed):
+    # mostly nothing; otherwise a collision checker of 0.1 ms .. 2 s per query and cheap-to-slowish distance / sampling
+    rk = stream(seed, "clock")
+    if rk.random() < 0.3:
+        cfg["cost"] = {"coll": round(10 ** rk.uniform(-4, 0.3), 6), "dist": round(10 ** rk.uniform(-6, -2), 8),
+                       "gen": round(10 ** rk.uniform(-6, -2), 8)}
     return {"property": PROP, "config": cfg, "draw_seed": seed}
 
 
 # --------------------------------------------------------------------------- driver interface
 
 LEVEL = "exploration"
-HAS_CLOCK = False
+HAS_CLOCK = True
 TIERS = {
     "quick": {"runs": 6000, "wall": 80, "chunk": 25, "det_sample": 48, "min_wall": 60.0},
     "thorough": {"runs": 120000, "wall": 800, "chunk": 40, "det_sample": 96, "min_wall": 180.0},
@@ -1017,17 +1100,20 @@ RULE = ("One run = one planner execution (findPath with the built-in pipeline ob
 REAL = ["pathplanner.RRTStar / R6Tree / PathNode", "rtree + libspatialindex (native)", "general.tm", "fsr.distance / fsr.arcDistance",
         "utilities.disp.progressBar"]
 STUB = ["the name `random` inside pathplanner (dsim.simrandom.SimRandom)", "sys.stdout (null sink)",
+        "the `time` names inside pathplanner / utilities.disp (virtual clock advanced by the call-back seams)",
         "custom mode: generator / distance / collision call-backs (pure functions of the harness)"]
 ASSUMPTIONS = [
     "rtree pickles stored nodes: nodes are identified by their six pose floats; accepted samples are pairwise distinct because minimum distance > 0",
     "libspatialindex nearest() returns all ties; the oracle accepts any member of the brute-force tie set (relative 1e-9)",
     "termination is not part of the statement: a run that exhausts its draw budget is inconclusive, not a violation",
-    "no clock, network, disk or crash exists in this component; the only schedule is the PRNG draw sequence",
+    "no network, disk or crash exists in this component and the unchanged planner reads no clock; the schedule is the PRNG draw sequence. "
+    "The `time` names pathplanner and utilities.disp hold are nevertheless the simulator's (call-backs cost simulated time in 30 % of "
+    "runs), so that a change which makes the tree depend on elapsed time is decided rather than invisible",
 ]
 EXPECTED_PROBES = ["rejected_for_min", "rejected_for_max", "rejected_for_collision", "rejected_exact_duplicate",
                    "tie_in_first_nearest", "tie_at_kth_neighbour", "parent_not_nearest", "cheaper_candidate_collides",
                    "k_exceeds_tree_size", "terrain_generated", "iterations_1", "iterations_2", "path_goal_nearest_root",
-                   "path_depth_ge4", "path_depth_ge14", "path_depth_ge30", "path_depth_ge100", "tree_depth_ge100", "tree_depth_ge257", "second_call_on_same_planner", "obstruction_replaced_between_calls", "goal_is_rounded_tree_node", "caller_edited_its_origin", "caller_edited_its_path", "custom_callbacks", "builtin_pipeline", "arc_distance_mode"]
+                   "path_depth_ge4", "path_depth_ge14", "path_depth_ge30", "path_depth_ge100", "tree_depth_ge100", "tree_depth_ge257", "second_call_on_same_planner", "obstruction_replaced_between_calls", "goal_is_rounded_tree_node", "caller_edited_its_origin", "caller_edited_its_path", "custom_callbacks", "builtin_pipeline", "arc_distance_mode", "callbacks_cost_simulated_time"]
 
 
 def warmup():
